@@ -115,7 +115,7 @@ func (ch c20) queries(c *core.Ctx) []string {
 		at := rng.Intn(len(q)/len(unit)+1) * len(unit)
 		qs = append(qs, q[:at]+fmt.Sprintf("$%d ", 5+rng.Intn(60))+q[at:])
 	}
-	frag := []string{"select ", "from t ", "where a=", " and ", "'", "\"", "$$", "$x", "$1a", "ü", "😀", "?", "?", "$", "-- c\n", "/*", "*/", "::int", "\\", ";", "\n"}
+	frag := []string{"select ", "from t ", "where a=", " and ", "'", "\"", "$$", "$x", "$1a", "ü", "😀", "?", "?", "$", "-- c\n", "/*", "*/", "::int", "\\", ";", "\n", "||", "|", "&", "?|", "?&", "?||' '||?", "@>", "#", "?::int", "(?)", "[?]"}
 	for i := 0; i < nrand; i++ {
 		var sb strings.Builder
 		for n := 1 + rng.Intn(12); n > 0; n-- {
